@@ -6,6 +6,7 @@ package p2p
 import (
 	"bytes"
 	"context"
+	"errors"
 	"io"
 	"time"
 
@@ -13,6 +14,7 @@ import (
 	"github.com/libp2p/go-libp2p/core/network"
 	"github.com/libp2p/go-libp2p/core/peer"
 	"github.com/libp2p/go-libp2p/core/protocol"
+	"github.com/libp2p/go-libp2p/p2p/net/conngater"
 
 	"github.com/celestiaorg/go-libp2p-messenger/serde"
 
@@ -26,22 +28,36 @@ import (
 // runs on it and its output becomes what the client reads.
 type zzPipe struct {
 	network.Stream
-	serv  *ExchangeServer[*zh.Hdr]
-	req   []byte
-	resp  []byte
-	pos   int
-	reset bool
-	extra []byte // a Byzantine server appends this after the genuine answer
+	serv   *ExchangeServer[*zh.Hdr]
+	req    []byte
+	resp   []byte
+	pos    int
+	reset  bool
+	extra  []byte // a Byzantine server appends this after the genuine answer
+	silent bool   // the peer accepts the stream, reads the request and never answers
+	readDL time.Time
 }
 
 func (p *zzPipe) Write(b []byte) (int, error) { p.req = append(p.req, b...); return len(b), nil }
 func (p *zzPipe) CloseWrite() error {
+	if p.silent {
+		return nil
+	}
 	s := &zzStream{in: p.req}
 	p.serv.requestHandler(s)
 	p.resp, p.reset = append(s.out, p.extra...), s.reset
 	return nil
 }
 func (p *zzPipe) Read(b []byte) (int, error) {
+	if p.silent {
+		if p.readDL.IsZero() {
+			select {} // no read deadline: the read never returns
+		}
+		if d := time.Until(p.readDL); d > 0 {
+			time.Sleep(d)
+		}
+		return 0, zzErrReadDeadline
+	}
 	if p.reset {
 		return 0, network.ErrReset
 	}
@@ -52,20 +68,33 @@ func (p *zzPipe) Read(b []byte) (int, error) {
 	p.pos += n
 	return n, nil
 }
-func (p *zzPipe) Close() error                { return nil }
-func (p *zzPipe) Reset() error                { return nil }
-func (p *zzPipe) SetDeadline(time.Time) error { return nil }
+func (p *zzPipe) Close() error { return nil }
+func (p *zzPipe) Reset() error { return nil }
+
+// deadlines: the read deadline matters for a peer that never answers
+func (p *zzPipe) SetDeadline(t time.Time) error     { p.readDL = t; return nil }
+func (p *zzPipe) SetReadDeadline(t time.Time) error { p.readDL = t; return nil }
+func (p *zzPipe) SetWriteDeadline(time.Time) error  { return nil }
 
 type zzWireHost struct {
 	host.Host
 	servers map[peer.ID]*ExchangeServer[*zh.Hdr]
 	extra   func(to peer.ID) []byte
+	silent  map[peer.ID]bool
 	streams int
 }
 
+var zzErrReadDeadline = errors.New("zz: read deadline exceeded")
+
+type zzWireNet struct{ network.Network }
+
+func (zzWireNet) ClosePeer(peer.ID) error { return nil }
+
+func (h *zzWireHost) Network() network.Network { return zzWireNet{} }
+
 func (h *zzWireHost) NewStream(_ context.Context, to peer.ID, _ ...protocol.ID) (network.Stream, error) {
 	h.streams++
-	p := &zzPipe{serv: h.servers[to]}
+	p := &zzPipe{serv: h.servers[to], silent: h.silent[to]}
 	if h.extra != nil {
 		p.extra = h.extra(to)
 	}
@@ -95,7 +124,8 @@ func zzWireSetup(N, tail, head int) ([]*zh.Hdr, *zzWireStore, *zzWireHost, *Exch
 	ex := &Exchange[*zh.Hdr]{ctx: context.Background(), host: hst, trustedPeers: func() peer.IDSlice { return peer.IDSlice{p0} }}
 	ex.Params = DefaultClientParameters()
 	ex.Params.RequestTimeout = time.Second
-	ex.peerTracker = &peerTracker{host: hst, trackedPeers: map[peer.ID]*peerStat{p0: {peerID: p0, peerScore: 1}}, disconnectedPeers: map[peer.ID]*peerStat{}}
+	gater, _ := conngater.NewBasicConnectionGater(nil)
+	ex.peerTracker = &peerTracker{host: hst, connGater: gater, trackedPeers: map[peer.ID]*peerStat{p0: {peerID: p0, peerScore: 1}}, disconnectedPeers: map[peer.ID]*peerStat{}}
 	return chain, st, hst, ex
 }
 
@@ -105,7 +135,7 @@ func ZzC18Wire() {
 	const N = 8
 	tail := 1 + zz.Choice("tail", 2)
 	head := 5 + zz.Choice("head", 3)
-	chain, _, _, ex := zzWireSetup(N, tail, head)
+	chain, _, hst, ex := zzWireSetup(N, tail, head)
 	ctx := context.Background()
 	switch zz.Choice("call", 4) {
 	case 0:
@@ -132,6 +162,15 @@ func ZzC18Wire() {
 		}
 	default:
 		ex.Params.MaxHeadersPerRangeRequest = uint64(1 + zz.Choice("chunk", 3))
+		if zz.Bool("silent.peer") {
+			// a second, better scored peer accepts every stream and never answers: the request timeout
+			// must free its chunk for the honest server
+			sp := peer.ID("silent0")
+			hst.silent = map[peer.ID]bool{sp: true}
+			hst.servers[sp] = nil
+			ex.peerTracker.trackedPeers[sp] = &peerStat{peerID: sp, peerScore: 9}
+			zz.Reach("silent-peer")
+		}
 		from := chain[tail-1]
 		ln := 1 + zz.Choice("len", head-tail)
 		rctx, cancel := context.WithTimeout(ctx, time.Minute)
@@ -139,6 +178,7 @@ func ZzC18Wire() {
 		hs, err := ex.GetRangeByHeight(rctx, from, from.H+1+uint64(ln))
 		zz.Reach("range")
 		zz.Assert(err == nil && len(hs) == ln, "GetRangeByHeight returns the requested range through the wire")
+		zz.Assert(rctx.Err() == nil, "the request completes without waiting for the caller's deadline")
 		for i, h := range hs {
 			zz.Assert(zzSameHeader(h, chain[tail+i]), "range headers arrive unchanged and in order")
 		}
